@@ -40,6 +40,29 @@ func htlcEvents(cx *Ctx, r *Report) map[string][]hev {
 	return per
 }
 
+// factOrdered: like fact, but the substrings must occur in the given order
+// (operand order of a comparison matters once flipped equivalents are generated).
+func (x hev) factOrdered(holds bool, subs ...string) (FactT, bool) {
+	for _, ft := range x.w.FactsAt(x.ev.Fr, x.ev.Site) {
+		if ft.Holds != holds || (isOutcomeFact(ft.Text) && !strings.Contains(strings.Join(subs, ""), " : ")) {
+			continue
+		}
+		pos, ok := 0, true
+		for _, sub := range subs {
+			i := strings.Index(ft.Text[pos:], sub)
+			if i < 0 {
+				ok = false
+				break
+			}
+			pos += i + len(sub)
+		}
+		if ok {
+			return ft, true
+		}
+	}
+	return FactT{}, false
+}
+
 func (x hev) fact(holds bool, subs ...string) (FactT, bool) {
 	return hasFact(x.w.FactsAt(x.ev.Fr, x.ev.Site), holds, subs...)
 }
@@ -501,7 +524,7 @@ func runC04(cx *Ctx, r *Report) {
 					fromPrev = true
 				}
 			}
-			_, gPeriod := x.fact(true, ".TimeElapsed", " < ", ".SupplyLimit.TimePeriod")
+			_, gPeriod := x.factOrdered(true, ".TimeElapsed", " < ", ".SupplyLimit.TimePeriod")
 			_, gLimited := x.fact(true, ".SupplyLimit.TimeLimited")
 			switch {
 			case strings.Contains(vs, "⟲"):
